@@ -607,4 +607,106 @@ Proof.
     + rewrite En3. intro E. destruct (H3Parse.s_ended s0); auto.
 Qed.
 
+
+(* ---------------------------------------------------------------- handle_event *)
+Lemma CI_hist_ext : forall c h h' rest, (forall x, ghost_of h' x = ghost_of h x) -> CI c h rest -> CI c h' rest.
+Proof.
+  intros c h h' rest E (A & B & C & D & N). split; [|split; [|split; [|split]]]; auto.
+  - intros sid s F. destruct (A sid s F) as (A1 & A2 & A3 & A4). unfold SI. rewrite E. auto.
+  - intros sid F. rewrite E. apply B. exact F.
+Qed.
+
+Lemma CI_local_end : forall c hist sid rest,
+  CI c hist (QLocalEnd sid :: rest) -> no_local sid rest -> CI (local_end c sid) hist rest.
+Proof.
+  intros c hist sid rest HC0 NL. unfold local_end.
+  destruct (get_or_create c sid) as [s0 c1] eqn:G.
+  assert (T : touches sid (QLocalEnd sid)) by (right; reflexivity).
+  destruct (CI_goc _ _ _ _ _ _ _ HC0 T G) as (HC1' & F & _ & _).
+  pose proof (CI_tail _ _ _ _ HC1') as HC1. apply CI_pop.
+  destruct (H3Parse.memz sid (c_sent_end c1)) eqn:M; [exact HC1|].
+  destruct HC1 as (A & B & C & D & N). split; [|split; [|split; [|split]]]; auto.
+  cbn [c_sent_end set_sent_end]. intros x Hx. cbn [H3Parse.memz] in Hx.
+  destruct (x =? sid) eqn:Q; [replace x with sid by lia; exact NL|]. apply C. exact Hx.
+Qed.
+
+Lemma local_end_done : forall c sid, c_done (local_end c sid) = c_done c.
+Proof.
+  intros c sid. unfold local_end, get_or_create, pop_if_ended.
+  destruct (find_stream sid (c_streams c)); cbn [c_done set_streams];
+    repeat match goal with |- context [if ?b then _ else _] => destruct b
+                      | |- context [match ?o with Some _ => _ | None => _ end] => destruct o end; reflexivity.
+Qed.
+
+Definition step_ok (hist : list event) (rest : list qevent) (o : hout) (c' : conn) : Prop :=
+  match o with
+  | Events evs => all_ok hist evs /\ CI c' (hist ++ evs) rest
+  | Closed _ => c_done c' = true
+  | Raised _ => True
+  end.
+
+Lemma handle_event_post : forall Q c q rest hist o c',
+  CI c hist (q :: rest) -> trace_ok (q :: rest) ->
+  handle_event fx (with_validators hdrs Q) c q = (o, c') -> step_ok hist rest o c'.
+Proof.
+  intros Q c q rest hist o c' HC (T1 & T2) H. unfold handle_event in H.
+  assert (NOP : (Events [], c) = (o, c') -> step_ok hist rest o c').
+  { intro E. inversion E; subst. cbn [step_ok]. rewrite app_nil_r. split; [exact Logic.I|eapply CI_tail; exact HC]. }
+  destruct q as [sid data fin|d| |sid].
+  - destruct (c_done c); [auto|].
+    unfold receive_stream_data in H.
+    destruct (receive_stream_data0 fx (with_validators hdrs Q) c sid data fin) as [evs c1|k c1|k] eqn:R;
+      inversion H; subst; cbn [step_ok]; auto.
+    assert (Hfin : fin = true -> no_stream sid rest) by (intros ->; exact T1).
+    destruct (recv0_post Q _ _ _ _ _ _ _ _ HC Hfin R) as (O1 & HC1). split; [exact O1|apply CI_pop; exact HC1].
+  - destruct (c_done c); [auto|].
+    unfold receive_datagram in H. destruct (pull_uint_var d) as [[qq r]|]; inversion H; subst; cbn [step_ok]; auto.
+    split.
+    + cbn [H3EventsSpec.all_ok]. split; [|exact Logic.I]. split; [exact Logic.I|cbn [ev_fin]; discriminate].
+    + eapply CI_hist_ext; [|eapply CI_tail; exact HC]. intro x. rewrite ghost_app. reflexivity.
+  - destruct (c_done c); auto.
+  - inversion H; subst. cbn [step_ok]. rewrite app_nil_r. split; [exact Logic.I|]. apply CI_local_end; assumption.
+Qed.
+
+Lemma run_done : forall tr c, c_done c = true -> events_of (run fx c tr) = [].
+Proof.
+  induction tr as [|[q O] tr IH]; intros c Hd; [reflexivity|]. cbn [run]. unfold handle_event.
+  destruct q as [sid data fin|d| |sid]; rewrite ?Hd; cbn [events_of flat_map app]; try (apply IH; exact Hd).
+  apply IH. rewrite local_end_done. exact Hd.
+Qed.
+
+Lemma run_post : forall tr c hist,
+  CI c hist (map fst tr) -> trace_ok (map fst tr) ->
+  all_ok hist (events_of (run fx c (with_validators_tr hdrs tr))).
+Proof.
+  induction tr as [|[q Q] tr IH]; intros c hist HC HT; [exact Logic.I|].
+  cbn [with_validators_tr map fst snd run] in *.
+  destruct (handle_event fx (with_validators hdrs Q) c q) as [o c'] eqn:HE.
+  pose proof (handle_event_post Q c q _ hist o c' HC HT HE) as P.
+  destruct o as [evs|k|k]; cbn [step_ok] in P.
+  - destruct P as (P1 & P2). cbn [events_of flat_map]. apply all_ok_app; [exact P1|].
+    apply IH; [exact P2|exact (proj2 HT)].
+  - cbn [events_of flat_map app]. fold (events_of (run fx c' (with_validators_tr hdrs tr))).
+    unfold with_validators_tr. rewrite run_done by exact P. exact Logic.I.
+  - exact Logic.I.
+Qed.
+
 End Conn.
+
+(* ---------------------------------------------------------------- the theorem over whole connections *)
+Lemma CI_init : forall hdrs client dgram rest, CI hdrs client (conn_init client dgram) [] rest.
+Proof.
+  intros. split; [|split; [|split; [|split]]]; cbn.
+  - intros sid s F. discriminate.
+  - intros sid _. left. reflexivity.
+  - intros sid F. discriminate.
+  - destruct client; reflexivity.
+  - constructor.
+Qed.
+
+Lemma events_respect_spec_proof : forall fx hdrs client dgram tr,
+  fx_pushblock fx = true -> trace_ok (map fst tr) ->
+  all_ok client hdrs [] (events_of (h3_run fx hdrs (conn_init client dgram) tr)).
+Proof.
+  intros fx hdrs client dgram tr Hpb HT. unfold h3_run. apply run_post; [exact Hpb|apply CI_init|exact HT].
+Qed.
